@@ -180,7 +180,7 @@ def _atleast_1d(L, a):
 
 # ---------------------------------------------------------------- plain numeric tables (numpy.loadtxt) and first occurrences
 @model('numpy.loadtxt')
-def _loadtxt(L, fname, ndmin=0, **kw):
+def _loadtxt(L, fname, ndmin=0, delimiter=None, **kw):
     """a whitespace-separated table of symbolic length read into a 2-d float array: file content
     ('table2d', n, [column function, ...]); the numbers are those written in the file (assumed: the string layer)"""
     files = L.ctx.ghost.setdefault('files', {})
@@ -261,3 +261,18 @@ def _np_unique3(L, a, return_index=False, return_inverse=False, return_counts=Fa
     if return_index and not (return_inverse or return_counts or kw):
         return unique_first_occurrence(L, a, axis)
     return _prev_unique_io(L, a, return_index=return_index, return_inverse=return_inverse, return_counts=return_counts, axis=axis, **kw)
+
+
+@model('os.stat')
+def _os_stat(L, name, **kw):
+    """size of an abstract file: positive iff it holds at least one row (a table written with one line per row)"""
+    files = L.ctx.ghost.setdefault('files', {})
+    v = files.get(name)
+    if v is None:
+        raise PyRaise(builtin_exc('FileNotFoundError'), str(name))
+    if isinstance(v, tuple) and v[0] in ('table2d', 'strtable', 'table', 'symrows'):
+        n = to_z3(v[1])
+        size = L.ctx.fresh_int('st_size')
+        L.ctx.fact(z3.And(size >= 0, (size == 0) == (n == 0)))
+        return Opaque('stat_result', st_size=size)
+    raise Unsupported('os.stat of this file content')
